@@ -134,9 +134,12 @@ def session(s, out):
                     if shape_of(res[i]) != shape_of(ref[i]):
                         rec["shapes_ok"] = False
                     if t.shots.total_shots is None:
-                        for a, b in zip(res[i] if isinstance(res[i], tuple) else (res[i],), ref[i] if isinstance(ref[i], tuple) else (ref[i],)):
-                            if np.shape(a) != np.shape(b) or not np.allclose(a, b, atol=1e-10, rtol=0):
-                                rec["analytic_ok"] = False
+                        try:
+                            for a, b in zip(res[i] if isinstance(res[i], tuple) else (res[i],), ref[i] if isinstance(ref[i], tuple) else (ref[i],)):
+                                if np.shape(a) != np.shape(b) or not np.allclose(a, b, atol=1e-10, rtol=0):
+                                    rec["analytic_ok"] = False
+                        except Exception:  # noqa: BLE001 - not comparable at all
+                            rec["analytic_ok"] = False
                 rec["flags"] = rec["shapes_ok"] and rec["analytic_ok"]
         except Exception as e:  # noqa: BLE001 - recorded, decided by the trace spec
             rec["exc"] = type(e).__name__
